@@ -592,6 +592,38 @@ func (p *Prog) FindLifted(fn *ssa.Function, sel Sel) []Lifted {
 	return out
 }
 
+// FindLiftedAll is FindLifted that looks into the helpers even when fn itself has matches: the matches of fn and
+// of every repo function it calls statically (to the lifting depth), each helper once.
+func (p *Prog) FindLiftedAll(fn *ssa.Function, sel Sel) []Lifted {
+	var out []Lifted
+	if fn == nil {
+		return nil
+	}
+	seen := map[*ssa.Function]bool{fn: true}
+	var walk func(f *ssa.Function, via []ssa.CallInstruction, d int)
+	walk = func(f *ssa.Function, via []ssa.CallInstruction, d int) {
+		for _, in := range InstrsIn(f, sel) {
+			out = append(out, Lifted{In: in, Via: via})
+		}
+		if d == 0 {
+			return
+		}
+		for _, call := range CallsIn(f, nil) {
+			if _, isGo := call.(*ssa.Go); isGo {
+				continue
+			}
+			h := StaticCallee(call)
+			if h == nil || h.Blocks == nil || !p.InRepo(h) || seen[h] {
+				continue
+			}
+			seen[h] = true
+			walk(h, append(append([]ssa.CallInstruction{}, via...), call), d-1)
+		}
+	}
+	walk(fn, nil, liftDepth)
+	return out
+}
+
 // OwnedBy: fn is one of the owner functions, a closure of one, or an
 // unexported repo helper that is only ever called statically (never used as a
 // value, not reachable through an interface) and all of whose callers are
